@@ -36,7 +36,7 @@ MANIFEST = dict(
 
 def run(ck):
     ck.build_and_audit()
-    compat.suite_pairs(ck, ck.scale(32, 160), ck.scale(6, 10), ck.scale(10, 24))
+    compat.suite_pairs(ck, ck.scale(32, 90), ck.scale(6, 8), ck.scale(10, 20))
     ck.assumptions.extend([
         'class references of the two specs correspond one to one (rho); every pair is a listed compatible change (compatEnv)',
         'both environments: envWF (accepted specs), envWFX / envWFU (subclasses inherit their ancestors\' attribute descriptors)',
